@@ -100,6 +100,9 @@ impl Property for C05 {
     fn tape_len(&self, _t: Tier) -> usize {
         700
     }
+    fn fuzz_runs(&self, _tier: Tier) -> u64 {
+        40_000
+    }
     fn random_cases(&self, tier: Tier) -> u64 {
         tier.pick(150_000, 3_000_000)
     }
